@@ -30,6 +30,7 @@ class Scn:
         self.signer_kind = None           # sign with another credential's key
         self.signer_slot = 0
         self.stored_key_kind = None       # RP stores another credential's key
+        self.declared_alg = None          # the stored COSE key declares another algorithm than the key's own
         self.sign_scheme = None
         self.sign_over = None             # 'ad-only' | 'cdj-raw'
         self.post = None                  # function(assertion) mutating after signing
@@ -55,6 +56,9 @@ class Scn:
         if self.post:
             self.post(a)
         stored_key = authsim.Cred(self.stored_key_kind, slot=ALT_CRED_SLOT).cose_bytes if self.stored_key_kind else cred.cose_bytes
+        if self.declared_alg is not None:
+            import cbor2
+            stored_key = cbor2.dumps(cred.cose_map(alg=self.declared_alg))
         pol = impl.AuthPolicy(self.challenge, self.rp_id, self.exp_origin if self.exp_origin is not None else self.origin,
                               stored_key, self.stored, self.require_uv)
         return pol, a
@@ -67,6 +71,21 @@ class Scn:
 def f_type(s, r): s.cd_type = r.choice(["webauthn.create", "webauthn.get ", "Webauthn.get", ""])
 def f_challenge_other(s, r): s.sign_challenge = bytes(x ^ 0xFF for x in s.challenge)
 def f_challenge_trunc(s, r): s.sign_challenge = s.challenge[:-1] if r.random() < 0.5 else s.challenge + b"\x00"
+def f_challenge_b64_alias(s, r):
+    # the expected challenge is printable base64url text and the client data carries its base64url DECODING, or the client data
+    # carries the base64url ENCODING of the expected bytes as its challenge
+    import base64
+    if r.random() < 0.5:
+        txt = "".join(r.choice("ABCDEFGHIJKLMNOPQRSTUVWXYZabcdefghijklmnopqrstuvwxyz0123456789-_") for _ in range(43))
+        s.challenge = txt.encode()
+        s.sign_challenge = base64.urlsafe_b64decode(txt + "=")
+    else:
+        s.sign_challenge = authsim.b64u(s.challenge).encode()
+def f_declared_alg_foreign(s, r):
+    # the stored key declares an algorithm of ANOTHER key family (or an unregistered one); the signature is a genuine one of the key's own scheme
+    fam = authsim.KINDS[s.kind][0]
+    foreign = {"ec": [-257, -258, -259, -37, -38, -39, -65535, -8, -35], "rsa": [-7, -36, -8, -35], "ed": [-7, -36, -257, -37]}[fam]
+    s.declared_alg = r.choice(foreign)
 def _keep_expected(s):
     if s.exp_origin is None:
         s.exp_origin = s.origin
@@ -125,7 +144,7 @@ FAULTS = {
     "signed-over-raw-cdj": f_sign_cdj_raw, "counter-equal": f_counter_equal, "counter-lower": f_counter_lower,
     "counter-zero-vs-stored": f_counter_zero_vs_stored, "bs-without-be": f_bs_without_be, "scheme-mismatch": f_scheme_mismatch,
     "cdj-edited-after-signing": f_cdj_edited, "authdata-trailing-byte": f_ad_trailing, "signature-truncated": f_sig_trunc,
-    "credential-type": f_cred_type,
+    "credential-type": f_cred_type, "challenge-base64url-alias": f_challenge_b64_alias, "declared-algorithm-of-another-family": f_declared_alg_foreign,
 }
 # faults that can only be expressed in some input forms
 RECORD_ONLY = {"credential-type"}
@@ -135,7 +154,10 @@ def base_variation(s, rng):
     """Legitimate variation of the base ceremony (all accepted)."""
     s.rp_id = rng.choice(["example.com", "login.example.org", "xn--bcher-kva.example", "bücher.example", "a"])
     s.challenge = rng.randbytes(rng.choice([1, 16, 32, 64, 65]))
-    o = rng.choice(["https://example.com", "https://example.com:8443", "android:apk-key-hash:abcdef", "https://bücher.example"])
+    o = rng.choice(["https://example.com", "https://example.com:8443", "android:apk-key-hash:abcdef", "https://bücher.example",
+                    "android:apk-key-hash:Z8a8pvVL-_AbCdEfGhIjKlMnOpQrStUvWxYz0123456", "ios:bundle-id:com.Example.App"])
+    if rng.random() < 0.25:
+        s.challenge = "".join(rng.choice("ABCDEFGHIJKLMNOPQRSTUVWXYZabcdefghijklmnopqrstuvwxyz0123456789-_") for _ in range(rng.choice([22, 43, 64]))).encode()
     s.origin = o
     if rng.random() < 0.5:
         others = ["https://other.example", "https://example.com:9999"]
